@@ -128,7 +128,7 @@ def diagnose_hist(ls, mechanism, raw):
                 and _f32_equal(ro[1], mo[1])):
             return 'F08'
     if mechanism == 'contents-mismatch':
-        if (impl == 'py' and ls.fam.vc == 'F'
+        if (impl == 'py' and ls.fam.vc == 'F' and 'got' in raw
                 and _f32_equal(raw['got'], raw['want'])):
             return 'F08'
     return None
